@@ -598,4 +598,579 @@ theorem field_range (src : List Str) (f : Fld) (hR : FldR src f) (hv : (fieldTex
         rw [hB'n, List.mem_range'_1] at hm
         omega
 
+/-! ### multiset inclusion -/
+
+theorem subMultiset_iff (a : List Str) : ∀ b, subMultiset a b = true ↔ ∃ c, (a ++ c).Perm b := by
+  induction a with
+  | nil =>
+    intro b
+    simp only [subMultiset, removeAll, Option.isSome_some, List.nil_append, true_iff]
+    exact ⟨b, List.Perm.refl _⟩
+  | cons x xs ih =>
+    intro b
+    simp only [subMultiset, removeAll]
+    by_cases hx : x ∈ b
+    · simp only [List.contains_iff_mem, hx, if_true]
+      have := ih (b.erase x)
+      simp only [subMultiset] at this
+      rw [this]
+      constructor
+      · rintro ⟨c, hc⟩
+        exact ⟨c, (List.Perm.cons x hc).trans (List.perm_cons_erase hx).symm⟩
+      · rintro ⟨c, hc⟩
+        exact ⟨c, List.Perm.cons_inv (hc.trans (List.perm_cons_erase hx))⟩
+    · simp only [List.contains_iff_mem, hx, if_false, Option.isSome_none, Bool.false_eq_true, false_iff]
+      rintro ⟨c, hc⟩
+      exact hx (hc.subset (by simp))
+
+theorem subMultiset_of_sublist (a b : List Str) (h : a.Sublist b) : subMultiset a b = true := by
+  rw [subMultiset_iff]
+  induction h with
+  | slnil => exact ⟨[], List.Perm.refl _⟩
+  | @cons a b y _ ih =>
+    obtain ⟨c, hc⟩ := ih
+    exact ⟨y :: c, (List.perm_middle).trans (List.Perm.cons y hc)⟩
+  | @cons_cons a b y _ ih =>
+    obtain ⟨c, hc⟩ := ih
+    exact ⟨c, List.Perm.cons y hc⟩
+
+theorem subMultiset_append (a a' b b' : List Str) (h : subMultiset a b = true) (h' : subMultiset a' b' = true) :
+    subMultiset (a ++ a') (b ++ b') = true := by
+  rw [subMultiset_iff] at *
+  obtain ⟨c, hc⟩ := h
+  obtain ⟨c', hc'⟩ := h'
+  refine ⟨c ++ c', ?_⟩
+  have : ((a ++ a') ++ (c ++ c')).Perm ((a ++ c) ++ (a' ++ c')) := by
+    simp only [List.append_assoc]
+    apply List.Perm.append_left
+    rw [← List.append_assoc, ← List.append_assoc]
+    exact List.Perm.append_right _ List.perm_append_comm
+  exact this.trans (List.Perm.append hc hc')
+
+theorem subMultiset_trans_sublist (a b b' : List Str) (h : subMultiset a b = true) (hs : b.Sublist b') :
+    subMultiset a b' = true := by
+  rw [subMultiset_iff] at *
+  obtain ⟨c, hc⟩ := h
+  have := (subMultiset_iff b b').mp (subMultiset_of_sublist b b' hs)
+  obtain ⟨d, hd⟩ := this
+  exact ⟨c ++ d, by rw [← List.append_assoc]; exact (List.Perm.append_right d hc).trans hd⟩
+
+/-- the words of the lines `s..e` -/
+def W (src : List Str) (s e : Nat) : List Str := (List.range' s (e + 1 - s)).flatMap fun m => words (content src m)
+
+theorem rangeWords_eq (src : List Str) (s e : Nat) (h : s ≤ e) : rangeWords src s e = W src s e := by
+  unfold rangeWords W
+  have : e + 1 - s = (e - s) + 1 := by omega
+  rw [this, List.range'_succ, List.flatMap_cons]
+  congr 1
+  rw [List.range'_eq_map_range, List.flatMap_map]
+
+theorem sublist_flatMap {α β} (f : α → List β) (l l' : List α) (h : l.Sublist l') : (l.flatMap f).Sublist (l'.flatMap f) := by
+  induction h with
+  | slnil => exact List.Sublist.slnil
+  | @cons a b y _ ih =>
+    rw [List.flatMap_cons]
+    exact List.sublist_append_of_sublist_right ih
+  | @cons_cons a b y _ ih =>
+    rw [List.flatMap_cons, List.flatMap_cons]
+    exact List.Sublist.append (List.Sublist.refl _) ih
+
+theorem W_sublist (src : List Str) (s e s' e' : Nat) (h1 : s ≤ e) (h2 : e < s') (h3 : s' ≤ e') :
+    (W src s e ++ W src s' e').Sublist (W src s e') := by
+  unfold W
+  rw [← List.flatMap_append]
+  apply sublist_flatMap
+  -- range' s .. e ++ range' s' .. e' is a sublist of range' s .. e'
+  have e1 : List.range' s (e' + 1 - s) =
+      List.range' s (e + 1 - s) ++ (List.range' (e + 1) (s' - (e + 1)) ++ List.range' s' (e' + 1 - s')) := by
+    have a1 : s + (e + 1 - s) = e + 1 := by omega
+    have a2 : e + 1 + (s' - (e + 1)) = s' := by omega
+    have h12 : List.range' (e + 1) (s' - (e + 1)) ++ List.range' s' (e' + 1 - s') =
+        List.range' (e + 1) ((s' - (e + 1)) + (e' + 1 - s')) := by
+      have := List.range'_append_1 (s := e + 1) (m := s' - (e + 1)) (n := e' + 1 - s')
+      rw [a2] at this; exact this
+    rw [h12]
+    have := List.range'_append_1 (s := s) (m := e + 1 - s) (n := (s' - (e + 1)) + (e' + 1 - s'))
+    rw [a1] at this
+    rw [this]
+    congr 1
+    omega
+  rw [e1]
+  exact List.Sublist.append (List.Sublist.refl _) (List.sublist_append_right _ _)
+
+/-! ### the accumulator of `from_fields` -/
+
+theorem mem_joinNl (ls : List Str) (l : Str) (hl : l ∈ ls) (c : Char) (hc : c ∈ l) : c ∈ Model.Debcon.joinNl ls := by
+  induction ls with
+  | nil => cases hl
+  | cons x xs ih =>
+    cases xs with
+    | nil =>
+      simp only [List.mem_singleton] at hl
+      subst hl
+      simpa [Model.Debcon.joinNl] using hc
+    | cons y ys =>
+      have e : Model.Debcon.joinNl (x :: y :: ys) = x ++ '\n' :: Model.Debcon.joinNl (y :: ys) := rfl
+      rw [e]
+      rcases List.mem_cons.mp hl with rfl | hl
+      · simp [hc]
+      · simp [ih hl]
+
+theorem lstrip_value_ne (f : Fld) (last : NL) (hl : f.lines.getLast? = some last) (hnb : isBlank last.val = false) :
+    lstrip (fieldText f) ≠ [] := by
+  intro e
+  obtain ⟨w, hw, hdec⟩ := lstrip_decomp (fieldText f)
+  rw [e, List.append_nil] at hdec
+  have : isBlank last.val = true := by
+    rw [isBlank, List.all_eq_true]
+    intro c hc
+    apply hw
+    rw [← hdec]
+    exact mem_joinNl _ last.val (List.mem_map.mpr ⟨last, List.mem_of_getLast? hl, rfl⟩) c hc
+  rw [hnb] at this; cases this
+
+open Proofs.CopyrightTotal in
+structure AccR (src : List Str) (kn : List Str) (a : Acc) (B0 B : Nat) : Prop where
+  seen : KeysSeen a
+  lseen : ∀ k ∈ a.lines.map (·.1), k ∈ a.seen
+  knd : (a.known.map (·.1)).Nodup
+  xnd : (a.extra.map (·.1)).Nodup
+  lnd : (a.lines.map (·.1)).Nodup
+  kin : ∀ k ∈ a.known.map (·.1), k ∈ kn
+  xout : ∀ k ∈ a.extra.map (·.1), k ∉ kn
+  kval : ∀ kv ∈ a.known, kv.2 ≠ [] ∧ headP isSpace kv.2 = false ∧ ∃ r, (kv.1, r) ∈ a.lines ∧ RangeR src r.1 r.2 kv.2
+  xval : ∀ kv ∈ a.extra, ∃ v, kv.2 = XV.s v ∧ v ≠ [] ∧ ∃ r, (kv.1, r) ∈ a.lines ∧ RangeR src r.1 r.2 v
+  lval : ∀ kr ∈ a.lines, ∃ v, RangeR src kr.2.1 kr.2.2 v
+  lpart : ∀ kr ∈ a.lines, kr.1 ∈ a.known.map (·.1) ∨ kr.1 ∈ a.extra.map (·.1)
+  xorder : kn = [] → a.extra.map (·.1) = a.lines.map (·.1)
+  ord : (a.lines.map (·.2)).Pairwise (fun r r' => r.2 < r'.1)
+  bnd : ∀ kr ∈ a.lines, kr.2.2 < B
+  lob : ∀ kr ∈ a.lines, B0 ≤ kr.2.1
+  b0 : B0 ≤ B
+
+theorem lstrip_head (x : Str) : headP isSpace (lstrip x) = false := by
+  induction x with
+  | nil => rfl
+  | cons c cs ih =>
+    unfold lstrip
+    by_cases h : isSpace c = true
+    · simp only [h, if_true]; exact ih
+    · simp only [h, Bool.false_eq_true, if_false, headP]
+
+open Proofs.CopyrightTotal in
+theorem addField_R (src : List Str) (kn : List Str) (a : Acc) (f : Fld) (B0 B B' : Nat) (hinv : AccR src kn a B0 B)
+    (hR : FldR src f) (hlo : ∀ l ∈ f.lines, B ≤ l.num) (hhi : ∀ l ∈ f.lines, l.num < B') (hBB : B ≤ B') :
+    ∃ a', addField kn a f = .ok a' ∧ AccR src kn a' B0 B' := by
+  rcases addField_spec kn a f hinv.seen hinv.lseen with ⟨_, he⟩ | ⟨hv, name, suffix, first, last, hnotin, hf, hl, hcase⟩
+  · exact ⟨a, he, { hinv with bnd := fun kr h => by have := hinv.bnd kr h; omega, b0 := by have := hinv.b0; omega }⟩
+  · obtain ⟨hrange, _, hall⟩ := field_range src f hR hv first last hf hl
+    have hlastnb := rstrip_fixed_last f.lines hR.clean last hl
+    have hvne := lstrip_value_ne f last hl hlastnb
+    have hfm : first ∈ f.lines := by
+      cases hll : f.lines with
+      | nil => rw [hll] at hf; cases hf
+      | cons x xs => rw [hll] at hf; simp at hf; subst hf; simp
+    have hlm : last ∈ f.lines := List.mem_of_getLast? hl
+    have hkm : name ∉ a.known.map (·.1) := fun h => hnotin (hinv.seen.1 name h)
+    have hem : name ∉ a.extra.map (·.1) := fun h => hnotin (hinv.seen.2 name h)
+    have hlnm : name ∉ a.lines.map (·.1) := fun h => hnotin (hinv.lseen name h)
+    -- facts common to both branches
+    have hlseen' : ∀ k ∈ (a.lines ++ [(name, (first.num + (f.lines.takeWhile fun l => isBlank l.val).length, last.num))]).map (·.1),
+        k ∈ a.seen ++ [name] := by
+      intro k hk
+      simp only [List.map_append, List.map_cons, List.map_nil, List.mem_append, List.mem_singleton] at hk ⊢
+      rcases hk with h | h
+      · exact Or.inl (hinv.lseen k h)
+      · exact Or.inr h
+    have hlnd' : ((a.lines ++ [(name, (first.num + (f.lines.takeWhile fun l => isBlank l.val).length, last.num))]).map (·.1)).Nodup := by
+      simp only [List.map_append, List.map_cons, List.map_nil]
+      rw [List.nodup_append]
+      refine ⟨hinv.lnd, by simp, ?_⟩
+      intro x hx y hy
+      simp only [List.mem_singleton] at hy
+      subst hy
+      intro e; subst e; exact hlnm hx
+    have hlval' : ∀ kr ∈ a.lines ++ [(name, (first.num + (f.lines.takeWhile fun l => isBlank l.val).length, last.num))],
+        ∃ v, RangeR src kr.2.1 kr.2.2 v := by
+      intro kr hkr
+      rcases List.mem_append.mp hkr with h | h
+      · exact hinv.lval kr h
+      · simp only [List.mem_singleton] at h; subst h; exact ⟨_, hrange⟩
+    have hord' : ((a.lines ++ [(name, (first.num + (f.lines.takeWhile fun l => isBlank l.val).length, last.num))]).map (·.2)).Pairwise
+        (fun r r' => r.2 < r'.1) := by
+      simp only [List.map_append, List.map_cons, List.map_nil]
+      rw [List.pairwise_append]
+      refine ⟨hinv.ord, by simp, ?_⟩
+      intro r hr r' hr'
+      simp only [List.mem_singleton] at hr'
+      subst hr'
+      obtain ⟨kr, hkr, rfl⟩ := List.mem_map.mp hr
+      have := hinv.bnd kr hkr
+      have := hlo first hfm
+      simp only
+      omega
+    have hbnd' : ∀ kr ∈ a.lines ++ [(name, (first.num + (f.lines.takeWhile fun l => isBlank l.val).length, last.num))], kr.2.2 < B' := by
+      intro kr hkr
+      rcases List.mem_append.mp hkr with h | h
+      · have := hinv.bnd kr h; omega
+      · simp only [List.mem_singleton] at h; subst h; exact hhi last hlm
+    have hlob' : ∀ kr ∈ a.lines ++ [(name, (first.num + (f.lines.takeWhile fun l => isBlank l.val).length, last.num))], B0 ≤ kr.2.1 := by
+      intro kr hkr
+      rcases List.mem_append.mp hkr with h | h
+      · exact hinv.lob kr h
+      · simp only [List.mem_singleton] at h; subst h
+        have := hlo first hfm
+        have := hinv.b0
+        simp only
+        omega
+    have hb0' : B0 ≤ B' := by have := hinv.b0; omega
+    rcases hcase with ⟨hkn, hres⟩ | ⟨hkn, hres⟩
+    · refine ⟨_, hres, ?_⟩
+      constructor
+      · constructor
+        · intro k hk
+          simp only [List.map_append, List.map_cons, List.map_nil, List.mem_append, List.mem_singleton] at hk ⊢
+          rcases hk with h | h
+          · exact Or.inl (hinv.seen.1 k h)
+          · exact Or.inr h
+        · intro k hk
+          simp only [List.mem_append, List.mem_singleton]
+          exact Or.inl (hinv.seen.2 k hk)
+      · exact hlseen'
+      · simp only [List.map_append, List.map_cons, List.map_nil]
+        rw [List.nodup_append]
+        refine ⟨hinv.knd, by simp, ?_⟩
+        intro x hx y hy
+        simp only [List.mem_singleton] at hy
+        subst hy
+        intro e; subst e; exact hkm hx
+      · exact hinv.xnd
+      · exact hlnd'
+      · intro k hk
+        simp only [List.map_append, List.map_cons, List.map_nil, List.mem_append, List.mem_singleton] at hk
+        rcases hk with h | h
+        · exact hinv.kin k h
+        · rw [h]; exact List.contains_iff_mem.mp hkn
+      · exact hinv.xout
+      · intro kv hkv
+        rcases List.mem_append.mp hkv with h | h
+        · obtain ⟨h1, h2, r, hr, hrr⟩ := hinv.kval kv h
+          exact ⟨h1, h2, r, List.mem_append.mpr (Or.inl hr), hrr⟩
+        · simp only [List.mem_singleton] at h
+          subst h
+          exact ⟨hvne, lstrip_head _, (first.num + (f.lines.takeWhile fun l => isBlank l.val).length, last.num),
+            List.mem_append.mpr (Or.inr (by simp)), hrange⟩
+      · intro kv hkv
+        obtain ⟨v, h1, h2, r, hr, hrr⟩ := hinv.xval kv hkv
+        exact ⟨v, h1, h2, r, List.mem_append.mpr (Or.inl hr), hrr⟩
+      · exact hlval'
+      · intro kr hkr
+        rcases List.mem_append.mp hkr with h | h
+        · rcases hinv.lpart kr h with h' | h'
+          · left; simp only [List.map_append, List.mem_append]; exact Or.inl h'
+          · right; exact h'
+        · simp only [List.mem_singleton] at h; subst h
+          left; simp
+      · intro hk0
+        rw [hk0] at hkn; simp at hkn
+      · exact hord'
+      · exact hbnd'
+      · exact hlob'
+      · exact hb0'
+    · refine ⟨_, hres, ?_⟩
+      constructor
+      · constructor
+        · intro k hk
+          simp only [List.mem_append, List.mem_singleton]
+          exact Or.inl (hinv.seen.1 k hk)
+        · intro k hk
+          simp only [List.map_append, List.map_cons, List.map_nil, List.mem_append, List.mem_singleton] at hk ⊢
+          rcases hk with h | h
+          · exact Or.inl (hinv.seen.2 k h)
+          · exact Or.inr h
+      · exact hlseen'
+      · exact hinv.knd
+      · simp only [List.map_append, List.map_cons, List.map_nil]
+        rw [List.nodup_append]
+        refine ⟨hinv.xnd, by simp, ?_⟩
+        intro x hx y hy
+        simp only [List.mem_singleton] at hy
+        subst hy
+        intro e; subst e; exact hem hx
+      · exact hlnd'
+      · exact hinv.kin
+      · intro k hk
+        simp only [List.map_append, List.map_cons, List.map_nil, List.mem_append, List.mem_singleton] at hk
+        rcases hk with h | h
+        · exact hinv.xout k h
+        · rw [h]; intro hm; have := List.contains_iff_mem.mpr hm; rw [hkn] at this; cases this
+      · intro kv hkv
+        obtain ⟨h1, h2, r, hr, hrr⟩ := hinv.kval kv hkv
+        exact ⟨h1, h2, r, List.mem_append.mpr (Or.inl hr), hrr⟩
+      · intro kv hkv
+        rcases List.mem_append.mp hkv with h | h
+        · obtain ⟨v, h1, h2, r, hr, hrr⟩ := hinv.xval kv h
+          exact ⟨v, h1, h2, r, List.mem_append.mpr (Or.inl hr), hrr⟩
+        · simp only [List.mem_singleton] at h
+          subst h
+          exact ⟨_, rfl, hvne, (first.num + (f.lines.takeWhile fun l => isBlank l.val).length, last.num),
+            List.mem_append.mpr (Or.inr (by simp)), hrange⟩
+      · exact hlval'
+      · intro kr hkr
+        rcases List.mem_append.mp hkr with h | h
+        · rcases hinv.lpart kr h with h' | h'
+          · left; exact h'
+          · right; simp only [List.map_append, List.mem_append]; exact Or.inl h'
+        · simp only [List.mem_singleton] at h; subst h
+          right; simp
+      · intro hk0
+        simp only [List.map_append, List.map_cons, List.map_nil, hinv.xorder hk0]
+      · exact hord'
+      · exact hbnd'
+      · exact hlob'
+      · exact hb0'
+
+def fnums (f : Fld) : List Nat := f.lines.map (·.num)
+
+theorem pairwise_le_last (l : List Nat) (h : l.Pairwise (· < ·)) (m : Nat) (hm : l.getLast? = some m) : ∀ n ∈ l, n ≤ m := by
+  obtain ⟨init, rfl⟩ := List.getLast?_eq_some_iff.mp hm
+  rw [List.pairwise_append] at h
+  intro n hn
+  rcases List.mem_append.mp hn with h1 | h1
+  · exact Nat.le_of_lt (h.2.2 n h1 m (by simp))
+  · simp at h1; omega
+
+theorem addFields_R (src : List Str) (kn : List Str) (fs : List Fld) (a : Acc) (B0 B Bend : Nat) (hinv : AccR src kn a B0 B)
+    (hR : ∀ f ∈ fs, FldR src f) (hpw : (fs.flatMap fnums).Pairwise (· < ·))
+    (hlo : ∀ n ∈ fs.flatMap fnums, B ≤ n) (hhi : ∀ n ∈ fs.flatMap fnums, n < Bend) (hB : B ≤ Bend) :
+    ∃ a', addFields kn a fs = .ok a' ∧ AccR src kn a' B0 Bend := by
+  induction fs generalizing a B with
+  | nil => exact ⟨a, rfl, { hinv with bnd := fun kr h => by have := hinv.bnd kr h; omega, b0 := by have := hinv.b0; omega }⟩
+  | cons f fs ih =>
+    rw [List.flatMap_cons, List.pairwise_append] at hpw
+    -- the bound after this field: one past its last line
+    cases hlast : (fnums f).getLast? with
+    | none =>
+      have hnil : f.lines = [] := by
+        have := List.getLast?_eq_none_iff.mp hlast
+        simpa [fnums] using this
+      obtain ⟨a1, h1, hi1⟩ := addField_R src kn a f B0 B B hinv (hR f (by simp))
+        (by intro l hl; rw [hnil] at hl; cases hl) (by intro l hl; rw [hnil] at hl; cases hl) (Nat.le_refl _)
+      obtain ⟨a2, h2, hi2⟩ := ih a1 B hi1 (fun g hg => hR g (by simp [hg])) hpw.2.1
+        (fun n hn => hlo n (by rw [List.flatMap_cons]; exact List.mem_append.mpr (Or.inr hn)))
+        (fun n hn => hhi n (by rw [List.flatMap_cons]; exact List.mem_append.mpr (Or.inr hn))) hB
+      exact ⟨a2, by simp [addFields, h1, h2], hi2⟩
+    | some m =>
+      have hle := pairwise_le_last (fnums f) hpw.1 m hlast
+      have hmm : m ∈ fnums f := List.mem_of_getLast? hlast
+      have hmB : m < Bend := hhi m (by rw [List.flatMap_cons]; exact List.mem_append.mpr (Or.inl hmm))
+      obtain ⟨a1, h1, hi1⟩ := addField_R src kn a f B0 B (m + 1) hinv (hR f (by simp))
+        (fun l hl => hlo l.num (by rw [List.flatMap_cons]; exact List.mem_append.mpr (Or.inl (List.mem_map.mpr ⟨l, hl, rfl⟩))))
+        (fun l hl => Nat.lt_succ_of_le (hle l.num (List.mem_map.mpr ⟨l, hl, rfl⟩)))
+        (by have := hlo m (by rw [List.flatMap_cons]; exact List.mem_append.mpr (Or.inl hmm)); omega)
+      obtain ⟨a2, h2, hi2⟩ := ih a1 (m + 1) hi1 (fun g hg => hR g (by simp [hg])) hpw.2.1
+        (fun n hn => by have := hpw.2.2 m hmm n hn; omega)
+        (fun n hn => hhi n (by rw [List.flatMap_cons]; exact List.mem_append.mpr (Or.inr hn))) (by omega)
+      exact ⟨a2, by simp [addFields, h1, h2], hi2⟩
+
+/-! ### the paragraph `from_fields` builds -/
+
+open Props.C11W in
+structure ParaV (src : List Str) (p : Para) : Prop where
+  lnd : (p.lines.map (·.1)).Nodup
+  dnd : ((toDict p).map (·.1)).Nodup
+  val : ∀ k v, (k, XV.s v) ∈ toDict p → v ≠ [] → ∃ r, (k, r) ∈ p.lines ∧ RangeR src r.1 r.2 v
+  lval : ∀ kr ∈ p.lines, ∃ v, RangeR src kr.2.1 kr.2.2 v
+  cat : p.kind = .catchall → p.fields = [] ∧ p.extra.map (·.1) = p.lines.map (·.1) ∧ (p.extra.map (·.1)).Nodup ∧
+    ∀ kv ∈ p.extra, ∃ v, kv.2 = XV.s v ∧ v ≠ [] ∧ ∃ r, (kv.1, r) ∈ p.lines ∧ RangeR src r.1 r.2 v
+  lic : p.kind = .license → licenseParaIsEmpty p = true → licKey ∉ p.lines.map (·.1)
+
+theorem rangeR_words (src : List Str) (s e : Nat) (v v' : Str) (h : RangeR src s e v) (hw : words v' = words v) :
+    RangeR src s e v' := { h with wds := by rw [hw]; exact h.wds }
+
+theorem splitlinesAux_head (rest cur : Str) (cr : Bool) (hcur : cur ≠ []) :
+    ∃ l ls m, splitlinesAux rest cur cr = l :: ls ∧ l = cur.reverse ++ m := by
+  induction rest generalizing cur cr with
+  | nil => exact ⟨cur.reverse, [], [], by simp [splitlinesAux, hcur], by simp⟩
+  | cons c rest ih =>
+    unfold splitlinesAux
+    by_cases h1 : c = '\n' ∧ cr = true
+    · simp only [h1, and_self, if_true]; exact ih cur false hcur
+    · simp only [h1, if_false]
+      by_cases h2 : c = '\r'
+      · simp only [h2, if_true]; exact ⟨_, _, [], rfl, by simp⟩
+      · simp only [h2, if_false]
+        by_cases h3 : isBoundary c = true
+        · simp only [h3, if_true]; exact ⟨_, _, [], rfl, by simp⟩
+        · simp only [h3, Bool.false_eq_true, if_false]
+          obtain ⟨l, ls, m, h4, h5⟩ := ih (c :: cur) false (by simp)
+          exact ⟨l, ls, c :: m, h4, by rw [h5]; simp⟩
+
+open Props.C11W in
+/-- a license value that starts with a character that is not white space has a name -/
+theorem license_name_ne (v : Str) (hne : v ≠ []) (hh : headP isSpace v = false) :
+    ∃ n t, fromValue "LicenseField" (some v) = FV.license n t ∧ n ≠ [] := by
+  cases v with
+  | nil => exact absurd rfl hne
+  | cons c cs =>
+    have hc : isSpace c = false := by simpa [headP] using hh
+    have hb : isBoundary c = false := by
+      cases h : isBoundary c with
+      | false => rfl
+      | true => rw [Proofs.Splitlines.isBoundary_isSpace h] at hc; cases hc
+    have hn : c ≠ '\n' := by intro e; subst e; revert hc; decide
+    have hr : c ≠ '\r' := by intro e; subst e; revert hc; decide
+    have hsl : splitlines (c :: cs) = splitlinesAux cs [c] false := by
+      simp [splitlines, splitlinesAux, hn, hr, hb]
+    obtain ⟨l, ls, m, h1, h2⟩ := splitlinesAux_head cs [c] false (by simp)
+    have hl : l = c :: m := by simpa using h2
+    have hst : strip l ≠ [] := by
+      intro e
+      have : isBlank l = true := by
+        have := blank_of_strip l
+        cases hb' : isBlank l with
+        | true => rfl
+        | false =>
+          -- a string with a non-space character has a non-empty strip
+          have hnb : isBlank (strip l) = false := by
+            obtain ⟨w1, hw1, hd1⟩ := lstrip_decomp l
+            obtain ⟨w2, hw2, hd2⟩ := rstrip_decomp (lstrip l)
+            cases hbs : isBlank (strip l) with
+            | false => rfl
+            | true =>
+              exfalso
+              have hall : isBlank l = true := by
+                rw [isBlank, List.all_eq_true]
+                intro d hd
+                rw [hd1, hd2] at hd
+                simp only [List.mem_append] at hd
+                rcases hd with hd | hd | hd
+                · exact hw1 d hd
+                · exact List.all_eq_true.mp hbs d (by simpa [strip] using hd)
+                · exact hw2 d hd
+              rw [hall] at hb'; cases hb'
+          rw [e] at hnb; simp [isBlank] at hnb
+      rw [hl] at this
+      simp [isBlank, hc] at this
+    refine ⟨(licenseFromValue (c :: cs)).1, (licenseFromValue (c :: cs)).2, ?_, ?_⟩
+    · simp only [fromValue, String.reduceEq, if_false, Option.getD_some]
+    · have : (licenseFromValue (c :: cs)).1 = strip l := by
+        simp only [licenseFromValue, descriptionFromValue, lineSeparated, List.isEmpty_cons, Bool.false_eq_true, if_false, hsl, h1]
+      rw [this]; exact hst
+
+theorem absent_dumps_all (K : Kind) : ∀ nc ∈ typedFields K, dumps (fromValue nc.2 none) = [] := by
+  cases K with
+  | catchall => intro nc h; simp [Props.C07.typedFields_catchall] at h
+  | header => exact Props.C13P.absent_dumps .header (by simp)
+  | files => exact Props.C13P.absent_dumps .files (by simp)
+  | license => exact Props.C13P.absent_dumps .license (by simp)
+
+theorem lookup_mem {β} (l : List (Str × β)) (k : Str) (v : β) (h : l.lookup k = some v) : (k, v) ∈ l := by
+  induction l with
+  | nil => cases h
+  | cons a as ih =>
+    obtain ⟨a1, a2⟩ := a
+    by_cases e : k = a1
+    · subst e
+      simp only [List.lookup, beq_self_eq_true, Option.some.injEq] at h
+      subst h; simp
+    · have : (k == a1) = false := by simpa using e
+      simp only [List.lookup, this] at h
+      simp [ih h]
+
+open Props.C11W Props.C07 in
+/-- **one paragraph**: `from_fields` on the fields of one group records, for every field with a value, a range that
+locates exactly its content -/
+theorem fromFields_V (src : List Str) (K : Kind) (g : List Fld) (B0 Bend : Nat)
+    (hR : ∀ f ∈ g, FldR src f) (hpw : (g.flatMap fnums).Pairwise (· < ·))
+    (hlo : ∀ n ∈ g.flatMap fnums, B0 ≤ n) (hhi : ∀ n ∈ g.flatMap fnums, n < Bend) (hB : B0 ≤ Bend) :
+    ∃ p, fromFields K g = .ok p ∧ p.kind = K ∧ ParaV src p ∧ (p.lines.map (·.2)).Pairwise (fun r r' => r.2 < r'.1) ∧
+      ∀ kr ∈ p.lines, B0 ≤ kr.2.1 ∧ kr.2.2 < Bend := by
+  unfold fromFields
+  simp only
+  obtain ⟨a, ha, hinv⟩ := addFields_R src (if K = .catchall then [] else (typedFields K).map (·.1)) g ⟨[], [], [], [], 1⟩ B0 B0 Bend
+    ⟨⟨by simp, by simp⟩, by simp, by simp, by simp, by simp, by simp, by simp, by simp, by simp, by simp, by simp,
+      fun _ => rfl, by simp, by simp, by simp, Nat.le_refl _⟩ hR hpw hlo hhi hB
+  rw [ha]
+  refine ⟨_, rfl, rfl, ?_, hinv.ord, fun kr h => ⟨hinv.lob kr h, hinv.bnd kr h⟩⟩
+  -- the dictionary form: typed fields, then the extra data
+  have hd0keys : ((((typedFields K).map fun nc => (nc.1, fromValue nc.2 (a.known.lookup nc.1))).map
+      (fun nf => ((nf.1, XV.s (dumps nf.2)) : Str × DV))).map (·.1)) = (typedFields K).map (·.1) := by
+    simp [List.map_map, Function.comp]
+  have hxout : ∀ k ∈ a.extra.map (·.1), k ∉ (typedFields K).map (·.1) := by
+    intro k hk
+    by_cases hK : K = .catchall
+    · subst hK; simp [typedFields_catchall]
+    · have := hinv.xout k hk
+      simpa [hK] using this
+  have hdict : toDict (⟨K, (typedFields K).map fun nc => (nc.1, fromValue nc.2 (a.known.lookup nc.1)), a.extra, a.lines⟩ : Para) =
+      ((typedFields K).map fun nc => (nc.1, XV.s (dumps (fromValue nc.2 (a.known.lookup nc.1))))) ++ a.extra.map conv := by
+    rw [toDict_eq]
+    simp only
+    rw [foldl_dstep_append a.extra _ hinv.xnd (by intro k hk; rw [hd0keys]; exact hxout k hk)]
+    simp [List.map_map, Function.comp_def]
+  constructor
+  · exact hinv.lnd
+  · rw [hdict, List.map_append, List.nodup_append]
+    refine ⟨by simpa [List.map_map, Function.comp_def] using typed_nodup_all K, ?_, ?_⟩
+    · have : (a.extra.map conv).map (·.1) = a.extra.map (·.1) := by
+        simp [List.map_map, Function.comp_def, conv]
+      rw [this]; exact hinv.xnd
+    · intro x hx y hy e
+      subst e
+      have h1 : x ∈ (typedFields K).map (·.1) := by simpa [List.map_map, Function.comp_def] using hx
+      have h2 : x ∈ a.extra.map (·.1) := by simpa [List.map_map, Function.comp_def, conv] using hy
+      exact hxout x h2 h1
+  · intro k v hkv hv
+    rw [hdict] at hkv
+    rcases List.mem_append.mp hkv with h | h
+    · obtain ⟨nc, hnc, he⟩ := List.mem_map.mp h
+      simp only [Prod.mk.injEq, XV.s.injEq] at he
+      obtain ⟨rfl, rfl⟩ := he
+      cases hlk : a.known.lookup nc.1 with
+      | none => rw [hlk, absent_dumps_all K nc hnc] at hv; exact absurd rfl hv
+      | some v0 =>
+        obtain ⟨_, _, r, hr, hrr⟩ := hinv.kval (nc.1, v0) (lookup_mem _ _ _ hlk)
+        exact ⟨r, hr, rangeR_words src r.1 r.2 v0 _ hrr (Proofs.WordsConv.words_dumps_fromValue nc.2 v0)⟩
+    · obtain ⟨kv, hkvm, he⟩ := List.mem_map.mp h
+      obtain ⟨v0, h1, h2, r, hr, hrr⟩ := hinv.xval kv hkvm
+      have hie : v0.isEmpty = false := by cases v0 <;> simp_all
+      simp only [conv, h1, hie, Bool.false_eq_true, if_false, Prod.mk.injEq, XV.s.injEq] at he
+      obtain ⟨rfl, rfl⟩ := he
+      exact ⟨r, hr, rangeR_words src r.1 r.2 v0 _ hrr (Proofs.WordsConv.words_asFormattedText v0)⟩
+  · exact hinv.lval
+  · intro hK
+    simp only at hK
+    subst hK
+    refine ⟨by simp [typedFields_catchall], hinv.xorder (by simp), hinv.xnd, ?_⟩
+    intro kv hkv
+    exact hinv.xval kv hkv
+  · intro hK hemp hmem
+    simp only at hK
+    subst hK
+    -- a recorded license has a name
+    obtain ⟨kr, hkr, hk⟩ := List.mem_map.mp hmem
+    have hne : Kind.license ≠ Kind.catchall := by decide
+    rcases hinv.lpart kr hkr with h | h
+    · rw [hk] at h
+      obtain ⟨kv, hkvm, hkk⟩ := List.mem_map.mp h
+      obtain ⟨h1, h2, _⟩ := hinv.kval kv hkvm
+      have hlk : a.known.lookup licKey = some kv.2 := by
+        have := Props.C09G.lookup_mem_nodup a.known hinv.knd kv hkvm
+        rw [hkk] at this; exact this
+      obtain ⟨n, t', hfv, hnn⟩ := license_name_ne kv.2 h1 h2
+      simp only [licenseParaIsEmpty, licenseOf, getField, license_fields, List.map_cons, List.map_nil] at hemp
+      have : List.lookup "license".toList [(licKey, fromValue "LicenseField" (a.known.lookup licKey)),
+          (comKey, fromValue "FormattedTextField" (a.known.lookup comKey))] = some (FV.license n t') := by
+        rw [hlk, hfv]
+        show List.lookup licKey _ = _
+        simp [List.lookup]
+      rw [this] at hemp
+      simp only [Bool.and_eq_true, List.isEmpty_iff] at hemp
+      exact hnn hemp.1.2
+    · rw [hk] at h
+      have := hinv.xout licKey h
+      simp only [hne, if_false, license_fields, List.map_cons, List.map_nil] at this
+      exact this (by simp)
+
 end Props.C10R
